@@ -214,6 +214,11 @@ def inline_helpers(mod: Module, fn: FuncNode, cls: T.Optional[str], exclude: T.I
             for p, a in binding.items():
                 if _simple(a) and p not in stored:
                     mapping[p] = a
+                elif isinstance(a, ast.Name) and a.id == target and p in stored \
+                        and not any(isinstance(n, ast.Name) and n.id == target for p2, a2 in binding.items() if p2 != p for n in ast.walk(a2)):
+                    # `x = helper(.., x, ..)` where the helper rebinds that parameter: the parameter IS the caller's x (the call
+                    # overwrites x with the result anyway, and no other argument reads x)
+                    rename[p] = target
                 else:
                     fresh = p if (p not in caller_names or (isinstance(a, ast.Name) and a.id == p)) else f'{p}__{h.name}'
                     if not (isinstance(a, ast.Name) and a.id == fresh):
@@ -709,19 +714,108 @@ def desugar_map(fn: FuncNode, inplace: bool = False) -> FuncNode:
     return fn
 
 
+def _is_partial(v: ast.AST, imps: T.Dict[str, str]) -> bool:
+    """`partial(f, ...)` / `functools.partial(f, ...)` / an import alias of it, with plain arguments."""
+    if not isinstance(v, ast.Call):
+        return False
+    f = v.func
+    nm = f.id if isinstance(f, ast.Name) else (f.attr if isinstance(f, ast.Attribute) else '')
+    if isinstance(f, ast.Name) and imps.get(f.id, '') == 'functools.partial':
+        nm = 'partial'
+    return nm == 'partial' and bool(v.args) and not any(isinstance(a, ast.Starred) for a in v.args) and all(k.arg for k in v.keywords)
+
+
 def partial_bindings(mod: Module) -> T.Dict[str, ast.Call]:
     """Module-level `name = functools.partial(f, ...)` bindings."""
     out: T.Dict[str, ast.Call] = {}
     imps = mod.imports()
     for st in mod.tree.body:
-        if isinstance(st, ast.Assign) and len(st.targets) == 1 and isinstance(st.targets[0], ast.Name) and isinstance(st.value, ast.Call):
-            f = st.value.func
-            nm = f.id if isinstance(f, ast.Name) else (f.attr if isinstance(f, ast.Attribute) else '')
-            if isinstance(f, ast.Name) and imps.get(f.id, '') == 'functools.partial':
-                nm = 'partial'
-            if nm == 'partial' and st.value.args and not any(isinstance(a, ast.Starred) for a in st.value.args) and all(k.arg for k in st.value.keywords):
-                out[st.targets[0].id] = st.value
+        if isinstance(st, ast.Assign) and len(st.targets) == 1 and isinstance(st.targets[0], ast.Name) and _is_partial(st.value, imps):
+            out[st.targets[0].id] = st.value
     return out
+
+
+def expand_local_callables(fn: FuncNode, imps: T.Dict[str, str], inplace: bool = False) -> FuncNode:
+    """Calls through a single-definition local that only names a callable are replaced by the call they stand for (catalogue A3):
+    `p = partial(f, a, k=v); p(x)` -> `f(a, x, k=v)`;  `q = lambda x: E; q(a)` -> `E[x := a]`;  `g = f; g(x)` -> `f(x)`
+    (f a name that is never assigned in the function, or an attribute chain on `self`).  The operands frozen by a partial / read by
+    a lambda body must be names the function never rebinds (or constants), so the value read at the call equals the one at the definition."""
+    defs = _single_defs(fn)
+    params = {a.arg for a in fn.args.posonlyargs + fn.args.args + fn.args.kwonlyargs}
+    stored = _stores([fn])                      # every name bound somewhere in the function (nested scopes included: conservative)
+    unstable = (stored - set(defs)) | (stored & params)
+
+    def stable(e: ast.AST, bound: T.AbstractSet[str] = frozenset()) -> bool:
+        for n in ast.walk(e):
+            if isinstance(n, ast.Name) and n.id not in bound and n.id in unstable:
+                return False
+            if isinstance(n, (ast.NamedExpr, ast.Await, ast.Yield, ast.YieldFrom)):
+                return False
+        return True
+    partials: T.Dict[str, ast.Call] = {}
+    lambdas: T.Dict[str, ast.Lambda] = {}
+    aliases: T.Dict[str, ast.AST] = {}
+    for nm, v in defs.items():
+        if _is_partial(v, imps) and stable(v):
+            partials[nm] = v      # type: ignore[assignment]
+        elif isinstance(v, ast.Lambda):
+            a = v.args
+            ps = {x.arg for x in a.args}
+            if not (a.vararg or a.kwarg or a.posonlyargs or a.kwonlyargs or a.defaults) and stable(v.body, ps):
+                lambdas[nm] = v
+        elif isinstance(v, ast.Name) and v.id not in stored and v.id not in params:
+            aliases[nm] = v
+        elif isinstance(v, ast.Attribute) and _simple(v) and isinstance(_root(v), ast.Name) and _root(v).id == 'self':      # type: ignore[attr-defined]
+            aliases[nm] = v
+    # a local whose only binding is `g = f` (f never bound in the function) may be defined anywhere, also inside a loop: every execution binds the same callable
+    nstores: T.Dict[str, int] = {}
+    for n in walk_no_nested(fn):
+        if isinstance(n, ast.Name) and isinstance(n.ctx, (ast.Store, ast.Del)):
+            nstores[n.id] = nstores.get(n.id, 0) + 1
+    for st in walk_no_nested(fn):
+        if isinstance(st, ast.Assign) and len(st.targets) == 1 and isinstance(st.targets[0], ast.Name) and isinstance(st.value, ast.Name) \
+                and nstores.get(st.targets[0].id) == 1 and st.targets[0].id not in params and st.value.id not in stored and st.value.id not in params:
+            aliases.setdefault(st.targets[0].id, st.value)
+    if not (partials or lambdas or aliases):
+        return fn
+    fn = fn if inplace else copy.deepcopy(fn)
+
+    class _P(ast.NodeTransformer):
+        def visit_Call(self, c: ast.Call) -> ast.AST:
+            self.generic_visit(c)
+            f = c.func
+            if not isinstance(f, ast.Name):
+                return c
+            if f.id in partials:
+                b = partials[f.id]
+                kws = {k.arg for k in c.keywords}
+                new: ast.AST = ast.Call(func=copy.deepcopy(b.args[0]), args=[copy.deepcopy(a) for a in b.args[1:]] + list(c.args),
+                                        keywords=[copy.deepcopy(k) for k in b.keywords if k.arg not in kws] + list(c.keywords))
+                return ast.copy_location(new, c)
+            if f.id in lambdas:
+                lam = lambdas[f.id]
+                ps = [x.arg for x in lam.args.args]
+                if c.keywords or len(c.args) != len(ps) or any(isinstance(a, ast.Starred) for a in c.args):
+                    return c
+                uses: T.Dict[str, int] = {}
+                for n in ast.walk(lam.body):
+                    if isinstance(n, ast.Name):
+                        uses[n.id] = uses.get(n.id, 0) + 1
+                if any(not _simple(a) and uses.get(p, 0) > 1 for p, a in zip(ps, c.args)):
+                    return c
+                return ast.copy_location(_Sub(dict(zip(ps, c.args))).visit(copy.deepcopy(lam.body)), c)
+            if f.id in aliases:
+                c.func = ast.copy_location(copy.deepcopy(aliases[f.id]), f)
+            return c
+    fn = _P().visit(fn)
+    ast.fix_missing_locations(fn)
+    return fn
+
+
+def _root(e: ast.AST) -> ast.AST:
+    while isinstance(e, ast.Attribute):
+        e = e.value
+    return e
 
 
 def expand_partials(fn: FuncNode, bindings: T.Dict[str, ast.Call], inplace: bool = False) -> FuncNode:
@@ -742,5 +836,96 @@ def expand_partials(fn: FuncNode, bindings: T.Dict[str, ast.Call], inplace: bool
                 return ast.copy_location(new, c)
             return c
     fn = _P().visit(fn)
+    ast.fix_missing_locations(fn)
+    return fn
+
+
+# ---------------------------------------------------------------------------
+# round 12 normal forms
+
+def _negate(t: ast.AST) -> ast.AST:
+    if isinstance(t, ast.UnaryOp) and isinstance(t.op, ast.Not):
+        return t.operand
+    if isinstance(t, ast.Compare) and len(t.ops) == 1:
+        flip = {ast.Is: ast.IsNot, ast.IsNot: ast.Is, ast.Eq: ast.NotEq, ast.NotEq: ast.Eq, ast.In: ast.NotIn, ast.NotIn: ast.In,
+                ast.Lt: ast.GtE, ast.GtE: ast.Lt, ast.Gt: ast.LtE, ast.LtE: ast.Gt}
+        return ast.copy_location(ast.Compare(left=t.left, ops=[flip[type(t.ops[0])]()], comparators=t.comparators), t)
+    return ast.copy_location(ast.UnaryOp(op=ast.Not(), operand=t), t)
+
+
+def _own_jumps(body: T.List[ast.stmt], kinds: T.Tuple[type, ...]) -> T.List[ast.stmt]:
+    """break/continue statements of `body` that belong to the loop whose body this is (not to a nested loop)."""
+    out: T.List[ast.stmt] = []
+
+    def go(stmts: T.List[ast.stmt]) -> None:
+        for st in stmts:
+            if isinstance(st, kinds):
+                out.append(st)
+            if isinstance(st, (ast.For, ast.While, ast.AsyncFor, ast.FunctionDef, ast.AsyncFunctionDef, ast.ClassDef)):
+                go(getattr(st, 'orelse', []) if not isinstance(st, (ast.FunctionDef, ast.AsyncFunctionDef, ast.ClassDef)) else [])
+                continue
+            for field in ('body', 'orelse', 'finalbody'):
+                sub = getattr(st, field, None)
+                if isinstance(sub, list) and sub and isinstance(sub[0], ast.stmt):
+                    go(sub)
+            for hd in getattr(st, 'handlers', []):
+                go(hd.body)
+    go(body)
+    return out
+
+
+def rotate_primed_loops(fn: FuncNode, inplace: bool = False) -> FuncNode:
+    """Loop-and-a-half and walrus-headed loops are read as the primed loop they abbreviate (catalogue D4/C6):
+      `while True: v = E; if T: break; BODY`      ->  `v = E; while not T: BODY; v = E`
+      `while (v := E) <op> X:` / `while v := E:`  ->  `v = E; while v <op> X: BODY; v = E`
+    only when BODY has no `continue` of this loop (it would skip the re-evaluation) and, for the first form, no other `break`
+    condition is lost (further breaks stay breaks)."""
+    fn = fn if inplace else copy.deepcopy(fn)
+
+    def conv(w: ast.stmt) -> T.Optional[T.List[ast.stmt]]:
+        if not isinstance(w, ast.While) or w.orelse:
+            return None
+        t = w.test
+        if isinstance(t, ast.Constant) and t.value is True and len(w.body) >= 2:
+            a, g = w.body[0], w.body[1]
+            if isinstance(a, ast.Assign) and len(a.targets) == 1 and isinstance(a.targets[0], ast.Name) \
+                    and isinstance(g, ast.If) and not g.orelse and len(g.body) == 1 and isinstance(g.body[0], ast.Break) \
+                    and not _own_jumps(w.body[2:], (ast.Continue,)):
+                prime = a
+                again = copy.deepcopy(a)
+                new = ast.While(test=_negate(g.test), body=list(w.body[2:]) + [again], orelse=[])
+                return [prime, ast.copy_location(new, w)]
+            return None
+        # walrus evaluated first and unconditionally in the loop test
+        inner = t.operand if isinstance(t, ast.UnaryOp) and isinstance(t.op, ast.Not) else t
+        ne = inner if isinstance(inner, ast.NamedExpr) else (inner.left if isinstance(inner, ast.Compare) and isinstance(inner.left, ast.NamedExpr) else None)
+        if ne is None or not isinstance(ne.target, ast.Name) or _own_jumps(w.body, (ast.Continue,)):
+            return None
+        if sum(1 for n in ast.walk(t) if isinstance(n, ast.NamedExpr)) != 1:
+            return None
+        prime = ast.copy_location(ast.Assign(targets=[ast.Name(id=ne.target.id, ctx=ast.Store())], value=ne.value, lineno=w.lineno), w)
+
+        class _R(ast.NodeTransformer):
+            def visit_NamedExpr(self, n: ast.NamedExpr) -> ast.AST:
+                return ast.copy_location(ast.Name(id=n.target.id, ctx=ast.Load()), n)      # type: ignore[attr-defined]
+        new = ast.While(test=_R().visit(copy.deepcopy(t)), body=list(w.body) + [copy.deepcopy(prime)], orelse=[])
+        return [prime, ast.copy_location(new, w)]
+
+    def walk_block(stmts: T.List[ast.stmt]) -> T.List[ast.stmt]:
+        res: T.List[ast.stmt] = []
+        for st in stmts:
+            for field in ('body', 'orelse', 'finalbody'):
+                sub = getattr(st, field, None)
+                if isinstance(sub, list) and sub and isinstance(sub[0], ast.stmt) and not isinstance(st, (ast.FunctionDef, ast.AsyncFunctionDef, ast.ClassDef)):
+                    setattr(st, field, walk_block(sub))
+            for hd in getattr(st, 'handlers', []):
+                hd.body = walk_block(hd.body)
+            rep = conv(st)
+            if rep is not None:
+                res.extend(rep)
+            else:
+                res.append(st)
+        return res
+    fn.body = walk_block(fn.body)
     ast.fix_missing_locations(fn)
     return fn
